@@ -92,6 +92,9 @@ func Parse(s string) (*Predicate, error) {
 	if err != nil {
 		return nil, fmt.Errorf("predicate.Parse can't unquote id in %s: %v", raw, err)
 	}
+	if id == "" {
+		return nil, fmt.Errorf("predicate.Parse cannot create a predicate with empty ID from %s", raw)
+	}
 	// TODO: if id has \" inside, it should be unquoted.
 	if ta == "" {
 		return &Predicate{
